@@ -24,15 +24,15 @@ def read_traces(path):
 
 
 def normalise(ops):
-    """address ids by first appearance; runs of crate-side output drops sorted"""
-    amap = {}
-
-    def aid(a):
-        if a == "ext":
-            return a
-        if a not in amap:
-            amap[a] = "A%d" % len(amap)
-        return amap[a]
+    """addresses: a `cpoll cid b s addr` line already names the slot (waker block b — block ids are
+    allocation order, the harness keeps released blocks so they are never re-used — and slot s);
+    its address becomes the index of that address among the addresses seen for (b, s): `a0` unless
+    the slot array moved.  A `cdrop cid addr` address becomes `same` (the address of the child's
+    last poll), `moved`, or `unpolled` (never polled: nothing to compare with).  Raw addresses are
+    not compared across slots: the allocator may hand the memory of a discarded group to a new one.
+    Runs of crate-side output drops are sorted."""
+    per_slot = {}
+    last = {}
 
     res = []
     for hdr, evs in ops:
@@ -40,10 +40,19 @@ def normalise(ops):
         for e in evs:
             t = e.split(" ")
             if t[0] == "cpoll" and len(t) >= 5:
-                t[4] = aid(t[4])
+                if t[4] != "ext":
+                    l = per_slot.setdefault((t[2], t[3]), [])
+                    if t[4] not in l:
+                        l.append(t[4])
+                    last[t[1]] = t[4]
+                    t[4] = "a%d" % l.index(t[4])
                 e = " ".join(t)
             elif t[0] == "cdrop" and len(t) >= 3:
-                t[2] = aid(t[2])
+                if t[2] != "ext":
+                    if t[1] not in last:
+                        t[2] = "unpolled"
+                    else:
+                        t[2] = "same" if last[t[1]] == t[2] else "moved"
                 e = " ".join(t)
             new.append(e)
         # sort maximal runs of "odrop X in"
